@@ -1,4 +1,115 @@
-import Spok.Judge.Syntax
-/-! # Property C16 — theorems (under construction) -/
+import Spok.Lemmas.LexJudge
+/-! # Property C16 — the token stream tiles the input
+
+*Each non-error token's text is exactly the slice of the input at its recorded offset; tokens come in
+increasing, non-overlapping offsets with nothing but whitespace between them; each token's line number is
+one plus the number of newlines before its offset.  Read up to its first end-of-file or error token the
+stream is finite, and a scan that ends without error ends with an end-of-file token positioned at the end
+of the input.*
+
+The proof is an invariant of the scanner (`Wf`/`WfT`, `Lemmas/LexWf*.lean`): Go's counters
+`pos start line startLine` are the byte length / newline count of what the zipper has read, the pending
+token text is the stretch `[start, pos)`, and the tokens emitted so far tile the input before `start`.
+Every primitive (`next`, `backup` after `next`, `absorb` over a spelled token, `emit`, `discard` over white
+space, `pos--` over a blank), every scanning loop and every state function preserves it; an ERROR token
+ends the obligation.  `Lemmas/LexTiles.lean` turns the rune-level tiling into the byte-level statement
+`TilesBytes` (see its docstring), `Lemmas/LexJudge.lean` shows that the executable judge `Judge.c16` —
+which is what is evaluated on the *implementation's* token stream — accepts whatever satisfies it. -/
 namespace Spok.Props.C16
+open Spok Spok.Judge
+
+/-- tokens up to and including the first EOF or ERROR -/
+abbrev cut := Wire.cutToks
+
+/-- **the invariant is inductive**: one step of the scanner's state machine preserves `WfT` -/
+theorem C16_invariant_step {input : List Rune} {l : L} {t : Tag} (h : WfT input l t) :
+    WfT input (stepTag l t).1 (stepTag l t).2 := wfT_stepTag h
+
+/-- … and holds initially, for every byte string (Go-style decoding, invalid UTF-8 included) -/
+theorem C16_invariant_init (bytes : List UInt8) : WfT (decodeAll bytes) (L.init (decodeAll bytes)) .start :=
+  wfT_intro .start (by decide) (by decide) (Wf.init (decodeAll_runesOK bytes)) rfl
+
+/-- the model's stream has its only EOF / ERROR token in last position, so cutting changes nothing -/
+theorem C16_cut_whole (bytes : List UInt8) : cut (lex bytes).toks = (lex bytes).toks :=
+  cutToks_of_doneOK (lexRunes_doneOK (decodeAll_runesOK bytes))
+
+/-- **C16, slices / gaps / lines.**  For every input, the stream read up to its first EOF or ERROR token
+    satisfies `TilesBytes`: every token before the last is neither EOF nor ERROR; `flat t.val` is the slice of
+    `bytes` at `[t.pos, t.pos + |flat t.val|)`, which lies inside the input; the bytes between the end of the
+    previous token (offset 0 for the first) and `t.pos` are the bytes of consecutive white-space runes of the
+    input's decoding (`WsGap`, in particular `previous end ≤ t.pos`); `t.line = 1 + #{0x0A bytes before
+    t.pos}`; the last token is an ERROR token (unconstrained) or the EOF token (see `C16_finite_and_eof`). -/
+theorem C16_tiles (bytes : List UInt8) : TilesBytes bytes (cut (lex bytes).toks) := by
+  rw [C16_cut_whole]; exact lex_tilesBytes bytes
+
+/-- **C16, order.**  Offsets are increasing and tokens do not overlap: every token ends at or before the
+    start of every later non-error token. -/
+theorem C16_offsets_increasing (bytes : List UInt8) :
+    (cut (lex bytes).toks).Pairwise (fun a b => b.ty ≠ .error → a.pos + (flat a.val).length ≤ b.pos) :=
+  (C16_tiles bytes).ordered.2
+
+/-- **C16, finiteness and the final EOF.**  The scan halts (the step budget of `lexRunes` is never
+    exhausted and the command loop never spins); if the stream contains no ERROR token, it is some tokens none
+    of which is EOF followed by exactly the EOF token: empty text, offset = length of the input, line = one
+    plus the number of newline bytes of the input. -/
+theorem C16_finite_and_eof (bytes : List UInt8) :
+    (lex bytes).halted = true ∧
+    ((∀ t ∈ (lex bytes).toks, t.ty ≠ .error) →
+      ∃ ts, (lex bytes).toks = ts ++ [⟨.eof, [], bytes.length, 1 + countNL bytes, 0⟩] ∧ ∀ t ∈ ts, t.ty ≠ .eof) := by
+  refine ⟨lexRunes_halted _, fun hne => ?_⟩
+  have hok := decodeAll_runesOK bytes
+  obtain ⟨ts, e, htoks, h | h⟩ := lexRunes_doneOK hok
+  · exact absurd h.1 (hne e (by show e ∈ (lexRunes (decodeAll bytes)).toks; rw [htoks]; simp))
+  · obtain ⟨rfl, ht⟩ := h
+    refine ⟨ts, ?_, fun t hm => (ht.types t hm).2⟩
+    have h1 : bytesLen (decodeAll bytes) = bytes.length := by rw [← flat_length, flat_decodeAll]
+    have h2 : nl (decodeAll bytes) = countNL bytes := by rw [← countNL_flat hok, flat_decodeAll]
+    show (lexRunes (decodeAll bytes)).toks = _
+    rw [htoks, h1, h2]
+
+/-- **the executable judge accepts the model**: `Judge.c16` (evaluated by the oracle on the token stream the
+    real lexer produced) holds of the model's own stream, for every input -/
+theorem judge_accepts_model (bytes : List UInt8) : Judge.c16 bytes (cut (lex bytes).toks) = true :=
+  (C16_tiles bytes).judge
+
+/-! ## non-vacuity -/
+
+/-- `# é⏎` (CRLF) `task a() {` ⏎ `  echo hi` ⏎ `}` ⏎ : a comment with a two-byte rune, a CRLF line end, a task body -/
+def sample : List UInt8 :=
+  [35, 32, 195, 169, 13, 10, 116, 97, 115, 107, 32, 97, 40, 41, 32, 123, 10, 32, 32, 101, 99, 104, 111, 32, 104, 105, 10,
+   125, 10]
+
+set_option maxRecDepth 100000 in
+/-- what the model scans from `sample`: offsets count bytes (IDENT `a` at 11 after the two-byte `é`), lines count
+    `\n` (the CR of the CRLF belongs to the comment's gap, not to a line of its own), the command excludes its
+    indentation and its line end, EOF sits at offset 29 = `sample.length` on line 5 -/
+theorem sample_tokens : (lex sample).toks.map (fun t => (t.ty, flat t.val, t.pos, t.line)) =
+    [(.hash, [35], 0, 1), (.comment, [32, 195, 169], 1, 1), (.task, [116, 97, 115, 107], 6, 2), (.ident, [97], 11, 2),
+     (.lparen, [40], 12, 2), (.rparen, [41], 13, 2), (.lbrace, [123], 15, 2),
+     (.command, [101, 99, 104, 111, 32, 104, 105], 19, 3), (.rbrace, [125], 27, 4), (.eof, [], 29, 5)] := by
+  decide +kernel
+
+set_option maxRecDepth 100000 in
+/-- the hypothesis of `C16_finite_and_eof` is satisfiable -/
+theorem sample_no_error : ∀ t ∈ (lex sample).toks, t.ty ≠ .error := by decide +kernel
+
+example : ∃ ts, (lex sample).toks = ts ++ [⟨.eof, [], 29, 5, 0⟩] ∧ ∀ t ∈ ts, t.ty ≠ .eof :=
+  (C16_finite_and_eof sample).2 sample_no_error
+
+example : TilesBytes sample (cut (lex sample).toks) := C16_tiles sample
+example : Judge.c16 sample (cut (lex sample).toks) = true := judge_accepts_model sample
+
+/-- `task a( {` followed by an invalid byte: the scan ends in an ERROR token; the tokens before it still tile -/
+def broken : List UInt8 := [116, 97, 115, 107, 32, 97, 40, 32, 0xFF]
+
+set_option maxRecDepth 100000 in
+theorem broken_tokens : (lex broken).toks.map (fun t => (t.ty, flat t.val, t.pos, t.line)) =
+    [(.task, [116, 97, 115, 107], 0, 1), (.ident, [97], 5, 1), (.lparen, [40], 6, 1), (.error, [], 8, 1)] := by
+  decide +kernel
+
+example : TilesBytes broken (cut (lex broken).toks) := C16_tiles broken
+
+/-- the judge is not trivially true: a token one byte off is rejected -/
+example : Judge.c16 [97, 10] [⟨.ident, [asc 97], 1, 1, 0⟩, ⟨.eof, [], 2, 2, 0⟩] = false := by decide +kernel
+
 end Spok.Props.C16
